@@ -7,6 +7,10 @@ import json, os, shutil, subprocess, sys
 HERE = os.path.dirname(os.path.dirname(os.path.abspath(__file__)))
 CONF = "/tmp/confirm"
 os.makedirs(CONF, exist_ok=True)
+SEED_DIR = os.environ.get("SEED_DIR", "/tmp/seed")          # round 2: SEED_DIR=/tmp/seed2 BASE_REV=HEAD K_OFFSET=3
+BASE_REV = os.environ.get("BASE_REV", "ca67a58")
+K_OFFSET = int(os.environ.get("K_OFFSET", "0"))
+TAG = "" if BASE_REV == "ca67a58" else "-" + subprocess.check_output(["git", "-C", "/repo", "rev-parse", "--short", BASE_REV], text=True).strip()
 
 def sh(cmd, cwd=None, timeout=900):
     r = subprocess.run(cmd, shell=True, cwd=cwd, capture_output=True, text=True, timeout=timeout)
@@ -15,7 +19,7 @@ def sh(cmd, cwd=None, timeout=900):
 def ensure_wt(name):
     wt = os.path.join(CONF, name)
     if not os.path.exists(wt):
-        rc, out = sh("git -C /repo worktree add --detach %s ca67a58" % wt)
+        rc, out = sh("git -C /repo worktree add --detach %s %s" % (wt, BASE_REV))
         assert rc == 0, out
     sh("git checkout -- . && git clean -fdq -e _build", cwd=wt)
     return wt
@@ -24,18 +28,19 @@ def build(wt):
     rc, out = sh("cmake -S . -B _build -G Ninja >/dev/null && cmake --build _build -j16 2>&1 | tail -5", cwd=wt)
     return rc, out
 
-base = ensure_wt("base")
+base = ensure_wt("base" + TAG)
 rc, out = build(base)
 assert rc == 0, out
 for pid in sys.argv[1:]:
-    wt = ensure_wt("wt-" + pid)
-    outdir = "/tmp/seed/%s/out" % pid
+    wt = ensure_wt("wt-" + pid + TAG)
+    outdir = "%s/%s/out" % (SEED_DIR, pid)
     for k in sorted(os.listdir(outdir)):
         d = os.path.join(outdir, k)
         if not os.path.exists(os.path.join(d, "patch.diff")):
             continue
         sh("git checkout -- . && git clean -fdq -e _build", cwd=wt)
-        res = {"seed": "%s-%s" % (pid, k)}
+        kk = str(int(k) + K_OFFSET) if k.isdigit() else k
+        res = {"seed": "%s-%s" % (pid, kk)}
         rc, o = sh("git apply %s" % os.path.join(d, "patch.diff"), cwd=wt)
         res["applies"] = rc == 0
         if rc != 0:
@@ -55,7 +60,7 @@ for pid in sys.argv[1:]:
         res["confirmed"] = ok
         print(json.dumps(res))
         if ok:
-            dst = os.path.join(HERE, "seeded", "%s-%s" % (pid, k))
+            dst = os.path.join(HERE, "seeded", "%s-%s" % (pid, kk))
             os.makedirs(dst, exist_ok=True)
             for fn in ("patch.diff", "demo.cpp", "run_demo.sh"):
                 shutil.copy(os.path.join(d, fn), os.path.join(dst, fn))
@@ -63,7 +68,8 @@ for pid in sys.argv[1:]:
                 meta = json.load(open(os.path.join(d, "meta.json")))
             except Exception as e:
                 meta = {"property": pid, "note": "agent meta.json unreadable: %s" % e}
-            meta["confirmed_by_me"] = {"ran": "git apply patch.diff in a scratch worktree of /repo HEAD; cmake+ninja build; ctest -j8 (all entries pass); run_demo.sh on patched build (exit %d) and on pristine build (exit %d)" % (rc1, rc0),
+            meta["base"] = subprocess.check_output(["git", "-C", "/repo", "rev-parse", "--short", BASE_REV], text=True).strip()
+            meta["confirmed_by_me"] = {"ran": "git apply patch.diff in a scratch worktree of /repo at the base revision; cmake+ninja build; ctest -j8 (all entries pass); run_demo.sh on patched build (exit %d) and on pristine build (exit %d)" % (rc1, rc0),
                                        "ctest": res["ctest"], "demo_output_patched": res["demo_patched_tail"]}
             json.dump(meta, open(os.path.join(dst, "meta.json"), "w"), indent=1)
     sh("git checkout -- . && rm -rf _build", cwd=wt)
